@@ -16,6 +16,7 @@ mod refsim;
 mod runner;
 mod sclass;
 mod sprops;
+mod tprops;
 
 use fclass::*;
 use lowprops::*;
@@ -23,6 +24,7 @@ use mclass::*;
 use qprops::*;
 use runner::*;
 use sprops::*;
+use tprops::*;
 
 fn ssub(prop: &'static str, name: &'static str, focus: Focus, mt: Option<u8>, max_cmds: usize) -> SSub {
     SSub {
@@ -158,6 +160,7 @@ fn rule_for(prop: &str) -> &'static str {
         "C05" => "class-M cases; oracle = per-model busy flag (swap at handler entry) and strict Begin/Op/End nesting of every model's records in the global stamp order, init included; non-trivial = a model ran >=2 handlers in one command AND (a suspended operation OR handlers of that model on >=2 threads); distinct = hash of the JSON case",
         "C06" => "class-M cyclic cases (loops, self queries, orphan mailboxes, sub-models) kicked off by process_* and by init, plus acyclic cases that must never report a stall; oracle = mailbox accounting at quiescence: queued(X) = min(capacity(X), started sends to X - handlers begun by X), Deadlock must list exactly the simulation's models with queued>0 by qualified name and size, MessageLoss(n) only when all n sit in orphan mailboxes, Ok iff nothing is queued; non-trivial = the run ended in Deadlock/MessageLoss, or completed with >=3 active models and a suspended operation; distinct = hash of the JSON case",
         "C12" => "c12-queue-seq: generated push/pop/len sequences (1-600 ops, capacities 1-69, one close at a generated position) on the real channel/queue.rs against a VecDeque model (Full gives the message back, Closed after close, accepted messages stay receivable, len() == held, never above capacity); non-trivial = a push met a full queue AND the ring buffer wrapped around. c12-queue-mpsc: 1-3 producer threads pushing 1-3000 numbered messages each with retry on Full, one consumer; per-producer FIFO, exactly once, nothing accepted is lost (also when the consumer closes the queue while producers are pushing), len() == 0 once drained, Closed after close; non-trivial = >=2 producers AND a producer met a full queue; distinct = hash of the JSON case",
+        "C15" => "one model, 20-400 events at generated increments (1 ns .. 4.3 s, many carrying into the seconds; start 999_999_000 ns before a second boundary), 1-3 reader threads spinning on Scheduler::time() while the driver steps; oracle = every value read is a time the simulation had, a reader's values never decrease, the read made after the last step returns the final time, handlers read a valid time; non-trivial = a reader saw >=3 distinct times AND two consecutive observations differing in the seconds; distinct = hash of the JSON case",
         "C14" => "class-M cases with 0-6 repliers per requestor (plain/map/filter_map) and with connections added between commands through detached clones of the models' output ports; oracle = reply list of every query == (replier, reply id computed from the mapped request, via) in connection order, process_query reply, and handler multisets that include deliveries through clone-added connections; non-trivial = a query with >=2 repliers and >=1 filtered out, or a clone-added connection in a case with >2 handlers; distinct = hash of the JSON case",
         "C16" => "class-M hierarchical cases (sub-models to depth 3+, empty names, init scripts that send events and queries); oracle = exactly one init per model during SimInit::init, before any message of that model, never later; messages sent before the recipient's init are in the expansion multiset; Context::name()/error reports use parent.child; non-trivial = sub-models present AND an init that sends to another model; distinct = hash of the JSON case",
         "C17" => "c17-sink-api: generated write/read/drain/open/close sequences (1-80 ops, 3 writer clones, capacities 1-39) on EventBuffer and EventSlot against a VecDeque/Option model; non-trivial = buffer overflowed (and capacity>1 or a write while closed) / slot overwritten then read then empty. c17-sim: class-M cases, sink content per (model, output) must be in sending order; non-trivial = a sink holds >=2 sends of one output; distinct = hash of the JSON case",
@@ -174,6 +177,10 @@ fn assumptions_for(prop: &str) -> Vec<&'static str> {
             "RefSim (simlab/src/refsim.rs) encodes the documented semantics correctly",
             "the scripted model Node logs faithfully (stamps from one global atomic counter)",
             "multi-threaded runs sample schedules; they do not enumerate them",
+        ],
+        "C15" => vec![
+            "real threads on x86: the retry logic of the seqlock is decided, its Acquire/Release orderings and fences are not (a strongly ordered CPU hides their absence)",
+            "the reader's last read is ordered after the last step by a Release/Acquire flag of the harness",
         ],
         "C12" => vec![
             "the VecDeque reference model of a bounded FIFO with close",
@@ -232,6 +239,12 @@ fn run_property(prop: &'static str, tier: &str, seed: u64) -> i32 {
             }
             core::set_delay_mode(0, seed);
         }
+        "C15" => {
+            let n = ctx.n(3000, 60_000);
+            ctx.run(&TSub { mt: None }, n, 5);
+            let n = ctx.n(1500, 30_000);
+            ctx.run(&TSub { mt: Some(4) }, n, 3);
+        }
         "C12" => {
             let n = ctx.n(150_000, 4_000_000);
             ctx.run(&QSeqSub, n, 16);
@@ -269,8 +282,8 @@ fn replay(path: &str) -> i32 {
     let prop = v["property"].as_str().unwrap_or("").to_string();
     let sub = v["sub"].as_str().unwrap_or("").to_string();
     let case = &v["case"];
-    let props: [&'static str; 18] = [
-        "C01", "C07", "C08", "C09", "C10", "C18", "C02", "C03", "C04", "C05", "C06", "C14", "C16", "C17", "C20", "C11", "C19", "C12",
+    let props: [&'static str; 19] = [
+        "C01", "C07", "C08", "C09", "C10", "C18", "C02", "C03", "C04", "C05", "C06", "C14", "C16", "C17", "C20", "C11", "C19", "C12", "C15",
     ];
     let mode = std::env::var("VERIF_DELAY_MODE").ok().and_then(|s| s.parse().ok()).unwrap_or(1);
     core::set_delay_mode(mode, 1);
@@ -292,6 +305,12 @@ fn replay(path: &str) -> i32 {
             if s.name == sub {
                 return replay_one(&s, p, case, path);
             }
+        }
+        if sub == "c15-readers-st" {
+            return replay_one(&TSub { mt: None }, p, case, path);
+        }
+        if sub == "c15-readers-mt" {
+            return replay_one(&TSub { mt: Some(4) }, p, case, path);
         }
         if sub == "c12-queue-seq" {
             return replay_one(&QSeqSub, p, case, path);
